@@ -7,6 +7,7 @@ package ice
 // `go test -overlay`; nothing here is part of pion/ice.
 
 import (
+	"sync/atomic"
 	"encoding/json"
 	"fmt"
 	"hash/fnv"
@@ -343,4 +344,42 @@ func vfRecover(f func()) (panicked string) {
 	f()
 
 	return ""
+}
+
+// vfCanary measures how late this process's goroutines are being run: a goroutine sleeps 1 ms at a time and records the
+// largest overshoot.  Oracles whose subject has a real-time deadline of its own (a first-frame timeout, say) use it to
+// tell "the code under test was late" from "the machine did not run anybody for a while": the latter is not judged.
+type vfCanary struct {
+	stop chan struct{}
+	done chan struct{}
+	max  atomic.Int64
+}
+
+func newVfCanary() *vfCanary {
+	c := &vfCanary{stop: make(chan struct{}), done: make(chan struct{})}
+	go func() {
+		defer close(c.done)
+		for {
+			select {
+			case <-c.stop:
+				return
+			default:
+			}
+			t := time.Now()
+			time.Sleep(time.Millisecond)
+			if over := int64(time.Since(t) - time.Millisecond); over > c.max.Load() {
+				c.max.Store(over)
+			}
+		}
+	}()
+
+	return c
+}
+
+// worst returns the largest overshoot seen so far.
+func (c *vfCanary) worst() time.Duration { return time.Duration(c.max.Load()) }
+
+func (c *vfCanary) close() {
+	close(c.stop)
+	<-c.done
 }
